@@ -55,7 +55,7 @@ def foreign_rule_holds(ctx, rep, facts, name):
         "C16-CONST": ("rules.C16", "const_rules", False), "C16-MAC": ("rules.C16", "mac_rules", False),
         "C19-TABLE": ("rules.C19", "table_rules", False), "C18-INV-YEAR": ("rules.C18", "inv_year_rules", False),
         "C12-TS": ("rules.C12", "ts_rules", False), "C15-WRITE": ("rules.C15", "write_rules", True),
-        "C09-COUNT": ("rules.shared_count", "count_rule", False),
+        "C09-COUNT": ("rules.shared_count", "count_rule", False), "C06-MANGLE": ("rules.C06", "mangle_rules", False),
     }
     if name not in table:
         cache[key] = True
